@@ -84,6 +84,10 @@ def sparse_deleg_case(rng):
     kind whose default bodies call required methods that no clause mentions (or whose patterns reject the argument) -- those inner
     calls are made on the delegation helper's clone of the mock and must resolve exactly like direct calls"""
     from . import C15
+    if rng.random() < 0.3:
+        # the partial-by-default row: Termination::report with and without clauses of its own (mock-std)
+        from ..deleg_part import report_case
+        return report_case(rng)
     c = C15.gen_case(rng)
     c["terms"] = [t for t in c["terms"] if rng.random() < 0.5]
     c["partial"] = rng.random() < 0.5
